@@ -49,3 +49,39 @@ Example C08_mpeg1audio_example :
   snd (dec_run mpa_parse dinit [mkPkt 1 0 true [0;0;0;9; 1]; mkPkt 2 0 true [0;1;0;0; 1;2;3;4;5]; mkPkt 3 0 true [0;0;0;0; 255;253;20;0;0]])
   = [DErr; DErr; DMore].
 Proof. vm_compute. reflexivity. Qed.
+
+(* ---- the translated kernels (tools/go2coq, regenerated from the Go source on every run) ----
+   The length tests and the size bookkeeping of rtpmpeg1audio/decoder.go - len(pkt.Payload) < 5, bl >= fl, len(buf) == 0,
+   len(frames) != 0, d.fragmentsSize = bl, d.fragmentsExpected = fl - bl, d.fragmentsSize += bl, d.fragmentsExpected -= bl,
+   d.fragmentsExpected < 0, d.fragmentsExpected > 0 - ARE the formulas of Model.dec / agg_loop (where fragmentsExpected is
+   a natural number: "< 0" is dexp d <? bl and the new value the truncated difference). *)
+From Coq Require Import ZArith.
+From GVG Require Import Kern.
+From GV_mpeg1audio Require Import BridgeLib Bridge.
+Open Scope Z_scope.
+
+Theorem C08_mpeg1audio_kernels_are_the_code : forall (pl buf : bytes) (frames : list bytes) (fl fs bl ex : N),
+  Z.of_N fl < i64max -> Z.of_N (fs + bl) < i64max -> Z.of_N ex < i64max ->
+  k_mpeg1audio_dec_short (Z.of_N (nlen pl)) = match pl with _ :: _ :: _ :: _ :: _ :: _ => false | _ => true end /\
+  k_mpeg1audio_dec_whole (Z.of_N (nlen buf)) (Z.of_N fl) = (fl <=? nlen buf)%N /\
+  k_mpeg1audio_dec_done (Z.of_N (nlen (ndrop fl buf))) = match ndrop fl buf with [] => true | _ :: _ => false end /\
+  k_mpeg1audio_dec_mixed (Z.of_N (nlen frames)) = match frames with [] => false | _ :: _ => true end /\
+  k_mpeg1audio_dec_first (Z.of_N bl) = Z.of_N bl /\
+  ((bl < fl)%N -> k_mpeg1audio_dec_exp0 (Z.of_N fl) (Z.of_N bl) = Z.of_N (fl - bl)) /\
+  k_mpeg1audio_dec_acc (Z.of_N fs) (Z.of_N bl) = Z.of_N (fs + bl) /\
+  k_mpeg1audio_dec_toobig (k_mpeg1audio_dec_exp (Z.of_N ex) (Z.of_N bl)) = (ex <? bl)%N /\
+  k_mpeg1audio_dec_more (k_mpeg1audio_dec_exp (Z.of_N ex) (Z.of_N bl)) = (0 <? ex - bl)%N /\
+  ((ex <? bl)%N = false -> k_mpeg1audio_dec_exp (Z.of_N ex) (Z.of_N bl) = Z.of_N (ex - bl)).
+Proof. exact Bridge.caps_kernels_are_the_code. Qed.
+Print Assumptions C08_mpeg1audio_kernels_are_the_code.
+
+(* 4 bytes are too short, 5 are not; a buffer of exactly the frame length is a whole frame, one byte less a fragment; a
+   fragment that completes the frame exactly leaves 0 expected (neither < 0 nor > 0) *)
+Example C08_mpeg1audio_example_kernels :
+  k_mpeg1audio_dec_short 4 = true /\ k_mpeg1audio_dec_short 5 = false /\
+  k_mpeg1audio_dec_whole 417 417 = true /\ k_mpeg1audio_dec_whole 416 417 = false /\
+  k_mpeg1audio_dec_done 0 = true /\ k_mpeg1audio_dec_mixed 0 = false /\ k_mpeg1audio_dec_mixed 1 = true /\
+  k_mpeg1audio_dec_exp0 417 400 = 17 /\ k_mpeg1audio_dec_acc 400 17 = 417 /\
+  k_mpeg1audio_dec_toobig (k_mpeg1audio_dec_exp 17 17) = false /\ k_mpeg1audio_dec_more (k_mpeg1audio_dec_exp 17 17) = false /\
+  k_mpeg1audio_dec_toobig (k_mpeg1audio_dec_exp 17 18) = true /\ k_mpeg1audio_dec_more (k_mpeg1audio_dec_exp 17 16) = true.
+Proof. vm_compute. repeat split. Qed.
